@@ -11,6 +11,7 @@ theorem lexEat_append (s : Src) : (s.lexEat).1.text ++ (s.lexEat).2.rest = s.res
 
 theorem lexEat_macros (s : Src) : (s.lexEat).2.macros = s.macros := rfl
 theorem lexEat_prepErr (s : Src) : (s.lexEat).2.prepErr = s.prepErr := rfl
+theorem lexEat_openConds (s : Src) : (s.lexEat).2.openConds = s.openConds := rfl
 
 theorem lexEat_eof (s : Src) : (s.lexEat).1.kind = .Eof ↔ s.rest = [] := by
   simp [lexEat, Lex.next_eof_iff]
@@ -54,7 +55,7 @@ theorem nextNotTrivia_macros (fuel : Nat) (s : Src) (racc : List Char) :
     · simp [lexEat_macros, lexEat_prepErr]
 
 theorem eatUntil_append (fuel depth : Nat) (s : Src) (racc : List Char) :
-    (eatUntil fuel depth s racc).1.reverse ++ (eatUntil fuel depth s racc).2.rest = racc.reverse ++ s.rest := by
+    (eatUntil fuel depth s racc).1.reverse ++ (eatUntil fuel depth s racc).2.1.rest = racc.reverse ++ s.rest := by
   induction fuel generalizing depth s racc with
   | zero => simp [eatUntil]
   | succ n ih =>
@@ -73,6 +74,49 @@ theorem eatUntil_append (fuel depth : Nat) (s : Src) (racc : List Char) :
     · exact key
     · rw [ih]; exact key
 
+@[simp] theorem error_rest (s : Src) (m : String) : (s.error m).rest = s.rest := rfl
+@[simp] theorem error_macros (s : Src) (m : String) : (s.error m).macros = s.macros := rfl
+@[simp] theorem error_openConds (s : Src) (m : String) : (s.error m).openConds = s.openConds := rfl
+@[simp] theorem error_prepErr (s : Src) (m : String) : (s.error m).prepErr = some m := rfl
+/-- `PreProcessor::error` leaves no lexer message behind -/
+@[simp] theorem error_lexErr (s : Src) (m : String) : (s.error m).lexErr = none := rfl
+
+@[simp] theorem afterSkip_rest (s : Src) (e : SkipEnd) : (afterSkip s e).rest = s.rest := by
+  unfold afterSkip; split <;> rfl
+@[simp] theorem afterSkip_macros (s : Src) (e : SkipEnd) : (afterSkip s e).macros = s.macros := by
+  unfold afterSkip; split <;> rfl
+@[simp] theorem afterSkip_openConds (s : Src) (e : SkipEnd) : (afterSkip s e).openConds = s.openConds := by
+  unfold afterSkip; split <;> rfl
+/-- after a skip no lexical message is parked: lexical errors of skipped text are dropped -/
+@[simp] theorem afterSkip_lexErr (s : Src) (e : SkipEnd) : (afterSkip s e).lexErr = none := by
+  unfold afterSkip; split <;> rfl
+@[simp] theorem reopen_rest (s : Src) (e : SkipEnd) : (reopen s e).rest = s.rest := by
+  unfold reopen; split <;> rfl
+@[simp] theorem reopen_macros (s : Src) (e : SkipEnd) : (reopen s e).macros = s.macros := by
+  unfold reopen; split <;> rfl
+@[simp] theorem reopen_lexErr (s : Src) (e : SkipEnd) : (reopen s e).lexErr = s.lexErr := by
+  unfold reopen; split <;> rfl
+@[simp] theorem reopen_prepErr (s : Src) (e : SkipEnd) : (reopen s e).prepErr = s.prepErr := by
+  unfold reopen; split <;> rfl
+
+@[simp] theorem atEof_rest (s : Src) : (atEof s).rest = s.rest := by
+  unfold atEof; split <;> rfl
+@[simp] theorem atEof_macros (s : Src) : (atEof s).macros = s.macros := by
+  unfold atEof; split <;> rfl
+/-- a message parked by the `Eof` arm is the only parked message -/
+theorem atEof_lexErr (s : Src) (h : s.lexErr = none) : (atEof s).lexErr = none := by
+  unfold atEof; split
+  · rfl
+  · exact h
+
+theorem skipCond_append (fuel : Nat) (s : Src) (racc : List Char) :
+    (skipCond fuel s racc).1.reverse ++ (skipCond fuel s racc).2.1.rest = racc.reverse ++ s.rest := by
+  simp only [skipCond, afterSkip_rest]; exact eatUntil_append fuel 1 s racc
+
+theorem skipCond_lexErr (fuel : Nat) (s : Src) (racc : List Char) :
+    (skipCond fuel s racc).2.1.lexErr = none := by
+  simp [skipCond]
+
 theorem processIf_append (b : Bool) (d : Tok) (s : Src) :
     (processIf b d s).1.text ++ (processIf b d s).2.rest = d.text ++ s.rest := by
   have h := nextNotTrivia_append (fuelOf s) s d.text.reverse
@@ -81,8 +125,8 @@ theorem processIf_append (b : Bool) (d : Tok) (s : Src) :
   simp only []
   split
   · split
-    · simp only [List.reverse_reverse]
-      rw [eatUntil_append, rev_reverseAux, List.append_assoc]; exact h
+    · simp only [reopen_rest]
+      rw [skipCond_append, rev_reverseAux, List.append_assoc]; exact h
     · simp only [List.reverse_reverse, rev_reverseAux, List.append_assoc]; exact h
   · simp only [List.reverse_reverse, rev_reverseAux, List.append_assoc]; exact h
 
@@ -108,10 +152,11 @@ theorem eat_append (s : Src) : (s.eat).1.text ++ (s.eat).2.rest = s.rest := by
     split
     · rw [processIf_append]; exact hl
     · rw [processIf_append]; exact hl
-    · simp only []
-      rw [eatUntil_append, List.reverse_reverse]; exact hl
+    · simp only [reopen_rest]
+      rw [skipCond_append, List.reverse_reverse]; exact hl
     · exact hl
     · rw [processDefine_append]; exact hl
+    · simp only [atEof_rest]; exact hl
     · exact hl
 
 theorem processIf_kind (b : Bool) (d : Tok) (s : Src) :
@@ -144,6 +189,7 @@ theorem eat_eof (s : Src) (h : (s.eat).1.kind = .Eof) : (s.eat).1.text = [] ∧ 
     · simp at h
     · simp at h
     · rcases processDefine_kind t s1 with h1 | ⟨h1, _⟩ <;> simp [h1] at h
+    · simp only [atEof_rest]; exact he h
     · exact he h
 
 /-- C02 (1b): whenever the token source delivers `Error`, `take_error` will find a message. -/
@@ -167,7 +213,8 @@ theorem eat_error (s : Src) (h : (s.eat).1.kind = .Error) :
     · rcases processDefine_kind t s1 with h1 | ⟨_, h2⟩
       · rename_i hk; simp [hk, h1] at h
       · exact Or.inl h2
-    · rename_i h1 h2 h3 h4 h5
+    · rename_i hk; simp [hk] at h
+    · rename_i h1 h2 h3 h4 h5 h6
       have : t.kind = .Error := by
         split at h
         · exact absurd ‹_› h1
@@ -175,6 +222,7 @@ theorem eat_error (s : Src) (h : (s.eat).1.kind = .Error) :
         · exact absurd ‹_› h3
         · exact absurd ‹_› h4
         · exact absurd ‹_› h5
+        · exact absurd ‹_› h6
         · exact h
       exact Or.inr (he this)
 
@@ -213,6 +261,9 @@ theorem eatUntil_len (fuel d : Nat) (s : Src) (racc : List Char) :
     · exact base
     · exact step _
 
+theorem skipCond_len (fuel : Nat) (s : Src) (racc : List Char) :
+    racc.length ≤ (skipCond fuel s racc).1.length := eatUntil_len fuel 1 s racc
+
 theorem len_reverseAux (t racc : List Char) : (t.reverseAux racc).length = t.length + racc.length := by
   simp [List.reverseAux_eq]
 
@@ -223,7 +274,7 @@ theorem processIf_text_len (b : Bool) (d : Tok) (s : Src) : d.text.length ≤ (p
   simp only []
   split
   · split
-    · have := eatUntil_len (fuelOf (nextNotTrivia (fuelOf s) s d.text.reverse).2.2) 1 (nextNotTrivia (fuelOf s) s d.text.reverse).2.2
+    · have := skipCond_len (fuelOf (nextNotTrivia (fuelOf s) s d.text.reverse).2.2) (nextNotTrivia (fuelOf s) s d.text.reverse).2.2
         ((nextNotTrivia (fuelOf s) s d.text.reverse).2.1.text.reverseAux (nextNotTrivia (fuelOf s) s d.text.reverse).1)
       simp only [len_reverseAux] at this
       simp only [List.length_reverse]
@@ -260,14 +311,15 @@ theorem eat_text_ne_nil (s : Src) (h : (s.eat).1.kind ≠ .Eof) : (s.eat).1.text
     · rename_i hk
       have ht : 0 < t.text.length := List.length_pos_iff.mpr (hne (by rw [hk]; simp))
       apply lenpos
-      have := eatUntil_len (fuelOf s1) 1 s1 t.text.reverse
+      have := skipCond_len (fuelOf s1) { s1 with openConds := s1.openConds - 1 } t.text.reverse
       simp only [List.length_reverse] at this ⊢; omega
     · rename_i hk
       exact hne (by rw [hk]; simp)
     · rename_i hk
       have ht : 0 < t.text.length := List.length_pos_iff.mpr (hne (by rw [hk]; simp))
       apply lenpos; have := processDefine_text_len t s1; omega
-    · rename_i h1 h2 h3 h4 h5
+    · rename_i hk; simp [hk] at h
+    · rename_i h1 h2 h3 h4 h5 h6
       apply hne
       split at h
       · exact absurd ‹_› h1
@@ -275,6 +327,7 @@ theorem eat_text_ne_nil (s : Src) (h : (s.eat).1.kind ≠ .Eof) : (s.eat).1.text
       · exact absurd ‹_› h3
       · exact absurd ‹_› h4
       · exact absurd ‹_› h5
+      · exact absurd ‹_› h6
       · exact h
 
 theorem takeError_some (s : Src) (h : s.prepErr.isSome = true ∨ s.lexErr.isSome = true) :
